@@ -41,7 +41,15 @@ fn main() {
         let v = args.get(i + 1).cloned().unwrap_or_default();
         match a {
             "--out" => out = v,
-            "--seed" => seed = v.parse().unwrap_or(1),
+            "--seed" => {
+                seed = match v.parse() {
+                    Ok(seed) => seed,
+                    Err(_) => {
+                        eprintln!("snt_harness: --seed must be an unsigned 64-bit integer, got {:?}", v);
+                        std::process::exit(2)
+                    }
+                }
+            }
             "--n" => n = v.parse().unwrap_or(1000),
             "--shard" => shard = v.parse().unwrap_or(500),
             "--replay" => replay = Some(v),
